@@ -652,7 +652,7 @@ func runC14(c C14Case, o *Obs) error {
 func init() { register("TestC14_Faults", runC14) }
 
 func TestC14_Faults(t *testing.T) {
-	st := newStats(t, "C14", "TestC14_Faults", "a committed prefix history by 1-2 writers (entries_per_node 2-4096), then one target statement on a fresh read-write handle: full/point/descending-range SELECT, autocommit write, BEGIN..COMMIT of 1-3 statements, s3db_refresh, s3db_version, SELECT from an s3db_changes table, s3db_vacuum, CREATE of a further table on the prefix (opens that merge when 2 versions are unmerged); for every vacuum target and a quarter of the others a further writer, opened before the target handle, commits one statement after the target handle was opened, so the target runs on a handle that has not merged a current sibling version (vacuum with a year-2100 cutoff then deletes history next to a retained, unmerged version); a fault-free reference run gives the result and the request count R; the statement is re-run for EVERY p<R with a single transport error at p and with every request from p on failing, and once with the connection deadline in the past; each run: error or exactly the reference result, bounded request count (<=50R+1000), no panic, then after clearing the fault s3db_refresh on the same connection and a fresh connection agree, show exactly the contents before or after the statement (after if it reported success), and a follow-up INSERT succeeds and is visible; non-trivial = fault on a GET of a scan/merge/diff on a tree of height>=1, or strictly inside a write/commit/vacuum")
+	st := newStats(t, "C14", "TestC14_Faults", "a committed prefix history by 1-2 writers (entries_per_node 2-4096), then one target statement on a fresh read-write handle: full/point/descending-range SELECT, autocommit write, BEGIN..COMMIT of 1-3 statements, s3db_refresh, s3db_version, SELECT from an s3db_changes table, s3db_vacuum, CREATE of a further table on the prefix (opens that merge when 2 versions are unmerged); for every vacuum target and a quarter of the others a further writer, opened before the target handle, commits one statement after the target handle was opened, so the target runs on a handle that has not merged a current sibling version (vacuum with a year-2100 cutoff then deletes history next to a retained, unmerged version); a fault-free reference run gives the result and the request count R; the statement is re-run for EVERY p<R with a single transport error at p and with every request from p on failing, and once with the connection deadline in the past; each run: error or exactly the reference result, bounded request count (<=50R+1000), no panic, then after clearing the fault s3db_refresh on the same connection and a fresh connection agree, show exactly the contents before or after the statement (after if it reported success), and a follow-up INSERT succeeds and is visible; and once more without any fault but with the connection's deadline set to 2099: the statement must succeed with the reference result and every request must carry a context that can end (the fake store records it): a request that cannot be cancelled waits for ever on a store that does not answer; non-trivial = fault on a GET of a scan/merge/diff on a tree of height>=1, or strictly inside a write/commit/vacuum")
 	checkRapid(t, st, genC14Case, runC14)
 }
 
